@@ -254,7 +254,7 @@ def run_impl(exe, lines, timeout_per_batch=3000, nproc=NCPU):
     """parallel front end of run_impl1 (contiguous chunks, results concatenated in order)"""
     from concurrent.futures import ThreadPoolExecutor
     parts = _chunks(lines, nproc) if len(lines) > 1 else [lines]
-    if all(l.startswith('I2SSWEEP') for l in lines):
+    if all(l.startswith(('I2SSWEEP', 'Z I2SSWEEP')) for l in lines):      # long-running lines: one process each
         parts = [[l] for l in lines]
     with ThreadPoolExecutor(max_workers=nproc) as ex:
         res = list(ex.map(lambda p: run_impl1(exe, p, timeout_per_batch), parts))
@@ -286,6 +286,10 @@ def run_impl1(exe, lines, timeout_per_batch=3000):
             outs[-1] = outs[-1] + ' X' + kind + (':' + m.group(1)[:200].replace(' ', '_') if m else '')
             break
         e = err.decode(errors='replace')
+        if '@@TIMEOUT(runner)' in e and complete:
+            # the wall-clock limit of the whole batch ran out while cases were still being answered (a loaded machine): no case is
+            # to blame; carry on with the rest.  The per-case watchdog inside the driver is what detects a case that hangs.
+            continue
         if rc == 124 or '@@TIMEOUT' in e:
             kind = 'timeout'
         elif 'AddressSanitizer' in e:
